@@ -28,6 +28,8 @@ func indexedUnder(cfg Cfg, p string) bool {
 		return p == "K" || p == "N"
 	case 3:
 		return spec.Indexed || p == "P"
+	case 4, 5, 6:
+		return spec.Indexed
 	}
 	return true
 }
